@@ -46,7 +46,7 @@ func okness(s string) string {
 
 func corrOstype(seed uint64, tier string, replay []string) *lib.Result {
 	res := &lib.Result{Property: "C17",
-		Rule: "(1) construction matrix {MemFS, OrefaFS} × requested OSType {Unknown, Linux, Windows} in this binary (tag on or off, as reported by BuildFeatures) against the Lean decision table setOSType; (2) with the tag on: random histories of portable calls, symbolic links included (paths built from components under the root / the default volume / for half of the MemFS histories an added volume D:) on the Windows-typed and the Linux-typed instance of each file system in lockstep: success/failure call by call and isomorphic trees (names, types, contents, link counts); a case is one call; distinct non-trivial = distinct (fs, call kind, outcome)"}
+		Rule: "(1) construction matrix {MemFS, OrefaFS} × requested OSType {Unknown, Linux, Windows} in this binary (tag on or off, as reported by BuildFeatures) against the Lean decision table setOSType; (2) with the tag on: random histories of portable calls, symbolic links included (paths built from components under the root / the default volume / for half of the MemFS histories an added volume D:) on the Windows-typed and the Linux-typed instance of each file system in lockstep: success/failure call by call and isomorphic trees (names, types, contents, link counts); then the bounded-exhaustive scenarios namespace and file-admin of small.go (every sequence of ≤ 2 calls, thorough ≤ 3) in the same lockstep; a case is one call; distinct non-trivial = distinct (fs, call kind, outcome)"}
 	st := lib.NewStats()
 	tagOn := avfs.BuildFeatures()&avfs.FeatSetOSType != 0
 	tag := "tagoff"
@@ -101,7 +101,21 @@ func corrOstype(seed uint64, tier string, replay []string) *lib.Result {
 	r := lib.NewRng(seed*911 + 17)
 	seen := map[string]bool{}
 	skip := map[string]bool{"chown": true, "lchown": true, "chmod": true, "setuser": true, "setumask": true, "sub": true, "mkdirtemp": true, "createtemp": true, "chtimes": true}
-	for k := 0; k < nh; k++ {
+	// after the random histories: the bounded-exhaustive scenarios namespace and file-admin of small.go (one level shallower)
+	var scripts []lib.History
+	if replay == nil {
+		for _, scn := range []string{"namespace", "file-admin"} {
+			sh, _ := smallHistoriesDepth(tier, scn, -1)
+			for _, h := range sh {
+				scripts = append(scripts, h[1:len(h)-1])
+			}
+		}
+	}
+	for k := 0; k < nh+len(scripts); k++ {
+		var script lib.History
+		if k >= nh {
+			script = scripts[k-nh]
+		}
 		for _, fsn := range []string{"memfs", "orefafs"} {
 			_ = avfs.SetUMask(0o022)
 			var lin, win avfs.VFS
@@ -124,8 +138,19 @@ func corrOstype(seed uint64, tier string, replay []string) *lib.Result {
 			mw.call("fs 0 mkdirall " + lib.Hex("/w") + " 511")
 			g := &fsGen{r: r.Split(), impl: ml, opts: fsGenOpts{files: true, kernel: true, symlinks: fsn == "memfs"}, nviews: 1}
 			var hist lib.History
-			for i := 0; i < nl; i++ {
-				l := g.next()
+			for i := 0; i < nl || (script != nil && i < len(script)); i++ {
+				var l string
+				if script != nil {
+					if i >= len(script) {
+						break
+					}
+					l = script[i]
+					if fsn == "orefafs" && strings.Fields(l)[2] == "symlink" {
+						continue
+					}
+				} else {
+					l = g.next()
+				}
 				if replay != nil {
 					if i >= len(replay) {
 						break
@@ -136,7 +161,11 @@ func corrOstype(seed uint64, tier string, replay []string) *lib.Result {
 				if skip[f[2]] || (f[2] == "file" && len(f) > 4 && (f[4] == "chmod" || f[4] == "chown" || f[4] == "stat" || f[4] == "readdir")) || f[2] == "stat" || f[2] == "lstat" || f[2] == "readdir" {
 					continue
 				}
-				// keep the history inside /w
+				// keep the history inside /w: a link target with ".." elements leads out of it, to the system directories that
+				// differ between the two types (and between the volumes of the Windows-typed one)
+				if f[2] == "symlink" && len(f) > 3 && strings.Contains(lib.UnHex(f[3]), "..") {
+					continue
+				}
 				l = strings.ReplaceAll(l, " 2f", " 2f772f")
 				if strings.Contains(l, " 2f772f ") || strings.HasSuffix(l, " 2f772f") {
 					continue
